@@ -197,6 +197,110 @@ func (p *pkg) emlAddrFromList() (bool, string) {
 	return true, "addrFunc(" + strsVar + "...) with " + strsVar + " = String() of each element of " + listVar + " := netmail.ParseAddressList(v)"
 }
 
+// emlDecodeWhole recognises that every transfer decoding in eml.go consumes its WHOLE input:
+//   handleEMLMultiPartBase64Encoding:  X, err := base64.StdEncoding.DecodeString(string(<data param>)); part.SetContent(string(X))
+//   parseEMLBodyPlain:                 D := quotedprintable.NewReader(..) / base64.NewDecoder(..); B.ReadFrom(D); msg.SetBodyString(.., B.String())
+//   parseEMLMultipart:                 data, err := io.ReadAll(multiPart)
+// and that no function of eml.go calls a Read method itself (one Read returns one chunk, not the input).
+func (p *pkg) emlDecodeWhole(file *ast.File) (bool, string) {
+	call := func(e ast.Expr) (*ast.CallExpr, string) {
+		if c, ok := e.(*ast.CallExpr); ok {
+			return c, p.src(c.Fun)
+		}
+		return nil, ""
+	}
+	// (d) no direct Read
+	direct := ""
+	ast.Inspect(file, func(n ast.Node) bool {
+		if c, ok := n.(*ast.CallExpr); ok {
+			if sel, ok := c.Fun.(*ast.SelectorExpr); ok {
+				switch sel.Sel.Name {
+				case "Read", "ReadAt", "ReadByte", "ReadAtLeast", "ReadFull", "CopyN", "LimitReader":
+					direct = p.src(c)
+				}
+			}
+		}
+		return true
+	})
+	if direct != "" {
+		return false, "partial read in eml.go: " + direct
+	}
+	// (a) base64 body parts
+	fn, ok := p.funcs["handleEMLMultiPartBase64Encoding"]
+	if !ok || fn.Body == nil || fn.Type.Params == nil || len(fn.Type.Params.List) == 0 || len(fn.Type.Params.List[0].Names) == 0 {
+		return false, "handleEMLMultiPartBase64Encoding not found"
+	}
+	data := fn.Type.Params.List[0].Names[0].Name
+	decoded, stored := "", false
+	ast.Inspect(fn.Body, func(n ast.Node) bool {
+		switch t := n.(type) {
+		case *ast.AssignStmt:
+			if len(t.Rhs) == 1 && len(t.Lhs) == 2 {
+				if c, f := call(t.Rhs[0]); c != nil && f == "base64.StdEncoding.DecodeString" && len(c.Args) == 1 && p.src(c.Args[0]) == "string("+data+")" {
+					decoded = p.src(t.Lhs[0])
+				}
+			}
+		case *ast.CallExpr:
+			if decoded != "" && p.src(t.Fun) == "part.SetContent" && len(t.Args) == 1 && p.src(t.Args[0]) == "string("+decoded+")" {
+				stored = true
+			}
+		}
+		return true
+	})
+	if decoded == "" || !stored {
+		return false, "handleEMLMultiPartBase64Encoding does not store base64.StdEncoding.DecodeString(string(" + data + ")) as the part content"
+	}
+	// (b) single-part bodies
+	fn, ok = p.funcs["parseEMLBodyPlain"]
+	if !ok || fn.Body == nil {
+		return false, "parseEMLBodyPlain not found"
+	}
+	decoders, drained, bufs, set := map[string]bool{}, map[string]bool{}, map[string]bool{}, 0
+	ast.Inspect(fn.Body, func(n ast.Node) bool {
+		switch t := n.(type) {
+		case *ast.AssignStmt:
+			if len(t.Rhs) == 1 && len(t.Lhs) == 1 {
+				if c, f := call(t.Rhs[0]); c != nil && (f == "quotedprintable.NewReader" || f == "base64.NewDecoder") {
+					decoders[p.src(t.Lhs[0])] = true
+				}
+			}
+		case *ast.CallExpr:
+			if sel, ok := t.Fun.(*ast.SelectorExpr); ok && sel.Sel.Name == "ReadFrom" && len(t.Args) == 1 && decoders[p.src(t.Args[0])] {
+				drained[p.src(t.Args[0])] = true
+				bufs[p.src(sel.X)] = true
+			}
+			if p.src(t.Fun) == "msg.SetBodyString" && len(t.Args) >= 2 {
+				if c, ok := t.Args[1].(*ast.CallExpr); ok {
+					if sel, ok := c.Fun.(*ast.SelectorExpr); ok && sel.Sel.Name == "String" && bufs[p.src(sel.X)] {
+						set++
+					}
+				}
+			}
+		}
+		return true
+	})
+	if len(decoders) != 2 || len(drained) != 2 || set != 2 {
+		return false, "parseEMLBodyPlain: the quoted-printable / base64 decoders are not drained with ReadFrom into the body"
+	}
+	// (c) the part data
+	fn, ok = p.funcs["parseEMLMultipart"]
+	all := false
+	if ok && fn.Body != nil {
+		ast.Inspect(fn.Body, func(n ast.Node) bool {
+			if t, ok := n.(*ast.AssignStmt); ok && len(t.Rhs) == 1 {
+				if c, f := call(t.Rhs[0]); c != nil && f == "io.ReadAll" && len(c.Args) == 1 && p.src(c.Args[0]) == "multiPart" {
+					all = true
+				}
+			}
+			return true
+		})
+	}
+	if !all {
+		return false, "parseEMLMultipart does not read the part with io.ReadAll(multiPart)"
+	}
+	return true, "part data = io.ReadAll(multiPart); base64 part = DecodeString(string(" + data + ")); plain bodies = ReadFrom(decoder); no direct Read call in eml.go"
+}
+
 func cmt(s string) string {
 	s = strings.ReplaceAll(s, "(*", "( *")
 	s = strings.ReplaceAll(s, "*)", "* )")
@@ -233,9 +337,16 @@ func init() {
 		if !ok {
 			untranslatable = append(untranslatable, "eml_panic_sites")
 			// a site nobody can discharge: the inclusion obligation fails
+			emit("Definition eml_decode_whole_input : bool := false.\n")
 			emit("(* UNTRANSLATABLE: eml.go not found *)\nDefinition eml_panic_sites : list (list N * list N * list N) := [([0], [0], [0])].\n")
 			return
 		}
+		// (4) every transfer decoding consumes its whole input (no single Read)
+		okw, whyw := p.emlDecodeWhole(f)
+		if !okw {
+			untranslatable = append(untranslatable, "eml_decode_whole_input")
+		}
+		emit("(* eml.go decoders: %s *)\nDefinition eml_decode_whole_input : bool := %v.\n\n", cmt(whyw), okw)
 		sites := p.emlSites(f)
 		emit("Definition eml_panic_sites : list (list N * list N * list N) :=\n  [")
 		for i, s := range sites {
